@@ -40,7 +40,18 @@ class SpecMDP(TabularMarkovDecisionProcess):
         return make_dist(self.sp.init, self.sp.init_kind)
 
     def is_absorbing(self, s):
-        return s in self.sp.flag
+        return _flag(self.sp, s)
+
+
+def _flag(sp, s):
+    """is_absorbing() may legitimately answer with a bool, a 0/1 int or a numpy bool"""
+    t = sp.meta.get("abs_type", "bool")
+    b = s in sp.flag
+    if t == "int":
+        return int(b)
+    if t == "npbool":
+        return np.bool_(b)
+    return b
 
 
 def quick(sp, explicit=False, tabular=True, shuffle_rng=None):
@@ -50,7 +61,7 @@ def quick(sp, explicit=False, tabular=True, shuffle_rng=None):
         reward=lambda s, a, ns: sp.R.get((s, a, ns), 0.0),
         actions=lambda s: sp.acts[s],
         initial_state_dist=make_dist(sp.init, sp.init_kind),
-        is_absorbing=lambda s: s in sp.flag,
+        is_absorbing=lambda s: _flag(sp, s),
         discount_rate=sp.gamma,
     )
     if explicit:
@@ -114,7 +125,7 @@ def build_pomdp(sp, explicit=False):
             return make_dist(sp.init, sp.init_kind)
 
         def is_absorbing(self, s):
-            return s in sp.flag
+            return _flag(sp, s)
 
         def observation_dist(self, a, ns):
             return DictDistribution({o: p for o, p in sp.O[(a, ns)]})
